@@ -600,10 +600,11 @@ func extractProcessRequest(f *ast.File) procInfo {
 		broken("ProcessRequest: expected parameters (ctx, m, out)")
 	}
 	mvar := fd.Type.Params.List[1].Names[0].Name
-	// uri := DWIMURI(ctx, u.(string)) where u, given := m["uri"]
+	// uri := DWIMURI(ctx, us) where u, given := m["uri"] and us is u checked to be a string
 	var sw *ast.SwitchStmt
 	sawDWIM := false
 	sawUriRead := false
+	sawAssert, sawAssertGuard := false, false
 	for _, st := range fd.Body.List {
 		switch s := st.(type) {
 		case *ast.AssignStmt:
@@ -611,8 +612,18 @@ func extractProcessRequest(f *ast.File) procInfo {
 			if t == `u, given := `+mvar+`["uri"]` {
 				sawUriRead = true
 			}
-			if t == "uri := DWIMURI(ctx, u.(string))" {
+			// (since the repair of the unchecked assertion: us, ok := u.(string); if !ok { return nil, error }; uri := DWIMURI(ctx, us))
+			if t == "us, ok := u.(string)" {
+				sawAssert = true
+			}
+			if t == "uri := DWIMURI(ctx, us)" && sawAssert && sawAssertGuard {
 				sawDWIM = true
+			}
+		case *ast.IfStmt:
+			if sawAssert && src(s.Cond) == "!ok" && len(s.Body.List) == 1 {
+				if rs, ok := s.Body.List[0].(*ast.ReturnStmt); ok && len(rs.Results) == 2 && src(rs.Results[0]) == "nil" && src(rs.Results[1]) != "nil" {
+					sawAssertGuard = true
+				}
 			}
 		case *ast.SwitchStmt:
 			if s.Tag != nil && src(s.Tag) == "uri" {
@@ -624,7 +635,7 @@ func extractProcessRequest(f *ast.File) procInfo {
 		}
 	}
 	if !sawUriRead || !sawDWIM || sw == nil {
-		broken("ProcessRequest: expected `u, given := m[\"uri\"]`, `uri := DWIMURI(ctx, u.(string))` and `switch uri` (found %v %v %v)", sawUriRead, sawDWIM, sw != nil)
+		broken("ProcessRequest: expected `u, given := m[\"uri\"]`, `us, ok := u.(string)` guarded by an error return, `uri := DWIMURI(ctx, us)` and `switch uri` (found %v %v %v)", sawUriRead, sawDWIM, sw != nil)
 	}
 	info := procInfo{}
 	for _, c := range sw.Body.List {
